@@ -243,7 +243,11 @@ impl Facts {
     fn unk(&mut self, what: &str, item: &impl ToTokens) {
         let mut s = n(item);
         if s.len() > 400 {
-            s.truncate(400);
+            let mut cut = 400;
+            while !s.is_char_boundary(cut) {
+                cut -= 1;
+            }
+            s.truncate(cut);
         }
         self.unknown.push(list(vec![string(what), string(s)]));
     }
